@@ -77,15 +77,16 @@ the dedicated socket answered `EINTR`, at any positions) changes nothing: for th
 regenerated) the reassembly ends exactly as the uninterrupted one — the message is delivered once, whole.  Without the retry one
 interruption loses the message (`RecvSig.loop_noretry_err`, D20). -/
 theorem C02_signal_transparent {α : Type} (sys total : Nat) (buf : List α) (answers : List (RecvSig.Ans α)) (eof : Bool) :
-    Gen.shape_followupRetriesEintr = true ∧
-    RecvSig.loop Gen.shape_followupRetriesEintr sys total buf answers eof
+    Gen.shape_followupRetriesEintr = true ∧ Gen.shape_followupRestoresLen = true ∧
+    RecvSig.loop Gen.shape_followupRetriesEintr sys total buf answers eof Gen.shape_followupRestoresLen
       = RecvSig.embed (Frag.recvFollow sys total buf (RecvSig.strip answers) eof) := by
-  refine ⟨RecvSig.code_retries, ?_⟩
-  rw [RecvSig.code_retries]; exact RecvSig.loop_retry sys total buf answers eof
+  refine ⟨RecvSig.code_retries.1, RecvSig.code_retries.2, ?_⟩
+  rw [RecvSig.code_retries.1, RecvSig.code_retries.2]; exact RecvSig.loop_retry sys total buf answers eof
 
 /-- non-vacuity / sensitivity: a 3-packet message, the second and third read interrupted (twice in a row) -/
 example : RecvSig.loop true 4608 20 [1, 2] [.eintr, .data [3, 4, 5], .eintr, .eintr, .data (List.replicate 15 9)] false
     = .ok ([1, 2, 3, 4, 5] ++ List.replicate 15 9) := by decide
 example : RecvSig.loop false 4608 20 [1, 2] [.eintr, .data [3, 4, 5]] false = .err := by decide
+example : RecvSig.loop true 4608 20 [1, 2] [.eintr, .data [3, 4, 5]] false false = .corrupt := by decide
 
 end C02
